@@ -335,19 +335,49 @@ def judge_mutation(side, label, verdict, o):
     return []
 
 
-def build_signatures(err):
-    """{signature: first line carrying it} for every distinct compile error of a failed build (order-independent)"""
+def _enclosing_func(path, line, cache={}):
+    """name of the top-level function of the generated file that contains the line (None: not inside one)"""
+    if path not in cache:
+        try:
+            cache[path] = open(path).read().splitlines()
+        except OSError:
+            cache[path] = []
+    src = cache[path]
+    for i in range(min(line, len(src)) - 1, -1, -1):
+        m = re.match(r"func (?:\([^)]*\) )?(\w+)\(", src[i])
+        if m:
+            return m.group(1)
+        if src[i].startswith("}"):
+            return None
+    return None
+
+
+def build_signatures(err, design=None, outdir=None):
+    """{signature: first line carrying it} for every distinct compile error of a failed build. Independent of the order in
+    which `go build` prints the packages. The two recorded findings about responses with Headers/Trailers are recognised by
+    WHERE the error sits — inside Encode<Method>Response of the server / Decode<Method>Response of the client of a method
+    whose response has headers or trailers — not by the presence of some line anywhere in the output: an error anywhere else
+    keeps its own signature and is reported."""
+    hdr_methods = set()
+    for s in (design or {}).get("services", []):
+        for m in s["methods"]:
+            g = m.get("grpc") or {}
+            if g.get("headers") or g.get("trailers"):
+                hdr_methods.add((s["name"].replace("_", "").lower(), m["name"].replace("_", "").lower()))
     sigs = {}
     lines = err.splitlines()
     for l in lines:
-        mm = re.search(r"gen/grpc/\w+/(\w+/\w+\.go):\d+:\d+: (.*)", l)
+        mm = re.search(r"(gen/grpc/(\w+)/((\w+)/\w+\.go)):(\d+):\d+: (.*)", l)
         if mm:
-            if mm.group(2).startswith("too many errors"):
+            path, svc, rel, pkg, lineno, msg = mm.group(1), mm.group(2), mm.group(3), mm.group(4), int(mm.group(5)), mm.group(6)
+            if msg.startswith("too many errors"):
                 continue
-            if mm.group(1) == "server/encode_decode.go" and re.match(r"undefined: (p|res)\b", mm.group(2)):
-                sig = "c10/build:response-headers-or-trailers"
-            else:
-                sig = "c10/build:%s: %s" % (mm.group(1), re.sub(r"\b[A-Z]\w*\d+\b", "T", mm.group(2))[:80])
+            sig = "c10/build:%s: %s" % (rel, re.sub(r"\b[A-Z]\w*\d+\b", "T", msg)[:80])
+            if rel in ("server/encode_decode.go", "client/encode_decode.go") and outdir and hdr_methods:
+                fn = _enclosing_func(os.path.join(outdir, path), lineno) or ""
+                fm = re.match(r"Encode(\w+)Response$", fn) if pkg == "server" else re.match(r"Decode(\w+)Response$", fn)
+                if fm and (svc.replace("_", "").lower(), fm.group(1).lower()) in hdr_methods:
+                    sig = "c10/build:response-headers-or-trailers" + ("" if pkg == "server" else "/client-decoder")
         elif re.search(r"\.go:\d+:\d+: ", l):
             if "too many errors" in l:
                 continue
@@ -387,7 +417,7 @@ def run_roundtrip(c, n, per_valid, cap):
             if kind == "failed":
                 # one failure per distinct compile error: `go build` prints the packages in no fixed order, so "the first error"
                 # is not a property of the design (that made this check report a recorded finding under a second name)
-                for sig, line in sorted(build_signatures(b.error).items()):
+                for sig, line in sorted(build_signatures(b.error, b.design, os.path.join(b.workdir, "out")).items()):
                     c.fail(sig, "gRPC design %d: the generated code does not compile: %s" % (b.index, line[:300]), input={"seed": c.seed, "index": b.index}, design=b.design, actual=b.error[-3000:])
             b.cleanup()
             continue
